@@ -12,11 +12,13 @@ mod neon_emu;
 mod ops;
 mod util;
 
+mod dispatch;
 mod drive_code;
 mod oneshot;
 mod prims;
 mod replay;
 mod rows;
+mod threads;
 
 use std::collections::HashMap;
 
@@ -73,6 +75,9 @@ fn main() {
         "code" => drive_code::main(&args),
         "oneshot" => oneshot::main(&args),
         "rows" => rows::main(&args),
+        "threads" => threads::main(&args),
+        "threads-child" => threads::child(&args),
+        "dispatch" => dispatch::main(&args),
         "prims" => prims::main(&args),
         "replay" => replay::main(&args),
         "replay-script" => replay::main_script(&args),
